@@ -921,6 +921,7 @@ func (d *Data) SplitSupervoxel(v dvid.VersionID, svlabel, splitlabel, remainlabe
 		if mapped, found := mapping.MappedLabel(v, svlabel); found {
 			if mapped == 0 {
 				err = fmt.Errorf("cannot get label for supervoxel %d, which has been split and doesn't exist anymore", svlabel)
+				return
 			}
 			label = mapped
 		}
